@@ -5,7 +5,10 @@ use super::state::{IncrStatus, State};
 use crate::node::Node;
 use crate::node_update::HandleUpdate;
 use std::cell::RefCell;
+#[cfg(not(cormacrelf_incremental_rs_verif))]
 use std::collections::HashMap;
+#[cfg(cormacrelf_incremental_rs_verif)]
+use crate::verif::HashMap;
 use std::fmt::{Debug, Display};
 use std::hash::Hash;
 use std::rc::Rc;
